@@ -135,18 +135,21 @@ type Param struct {
 }
 
 type Result struct {
-	T       string   `json:"t,omitempty"`
-	Impl    string   `json:"impl,omitempty"` // dynamic type when T is an interface
-	Name    string   `json:"name,omitempty"`
-	Group   string   `json:"group,omitempty"`
-	Flatten bool     `json:"flatten,omitempty"`
-	N       int      `json:"n,omitempty"`   // number of elements for slice-typed results (flatten / decorated groups)
-	Nil     bool     `json:"nil,omitempty"` // slice result is nil rather than empty when N == 0
-	Slice   bool     `json:"sl,omitempty"`  // result type is []T (group decorators, flatten)
-	Obj     []Result `json:"obj,omitempty"`
-	IsObj   bool     `json:"isobj,omitempty"`
-	Tag     string   `json:"tag,omitempty"`
-	Host    string   `json:"host,omitempty"`
+	T       string `json:"t,omitempty"`
+	Impl    string `json:"impl,omitempty"` // dynamic type when T is an interface
+	Name    string `json:"name,omitempty"`
+	Group   string `json:"group,omitempty"`
+	Flatten bool   `json:"flatten,omitempty"`
+	N       int    `json:"n,omitempty"`   // number of elements for slice-typed results (flatten / decorated groups)
+	Nil     bool   `json:"nil,omitempty"` // slice result is nil rather than empty when N == 0
+	// Zero: the function returns the zero value (nil pointer, nil interface,
+	// S0{}) for this result: a provided value that happens to be zero
+	Zero  bool     `json:"zero,omitempty"`
+	Slice bool     `json:"sl,omitempty"` // result type is []T (group decorators, flatten)
+	Obj   []Result `json:"obj,omitempty"`
+	IsObj bool     `json:"isobj,omitempty"`
+	Tag   string   `json:"tag,omitempty"`
+	Host  string   `json:"host,omitempty"`
 }
 
 type Opts struct {
@@ -408,6 +411,9 @@ func (r Result) Short() string {
 	}
 	if r.Impl != "" {
 		s += "=" + r.Impl
+	}
+	if r.Zero {
+		s += "=zero"
 	}
 	if r.Slice {
 		s = fmt.Sprintf("[]%s*%d", s, r.N)
